@@ -195,8 +195,6 @@ def run_history(ctx, h, r, wd, tag, crc, nops, backup, grow):
             bk_base = state_digest(st)
             inbk, rfo = True, "0"
             continue
-        if o is None or " e" in o.split("wsz=")[0] and kind not in ("del",):
-            pass
         w = o.split()
         if kind in ("put", "del"):
             ok = w[1] == "0" or (kind == "del" and w[1] == "notfound")
@@ -684,8 +682,10 @@ def run(ctx):
     ctx.cov["rule"] = ("real -wal files written by random put/del/sync/new-db histories (python dict as reference, every savepoint dump checked), "
                        "plain and with an online backup during which a writer checkpoints (reset marks; live log and backup image); each log is "
                        "recovered after every chosen cut (all savepoint/reset bytes, record boundaries +-1..4, header ends, payload tails -19..-21, "
-                       "page multiples, random) and, checksums on, after single-bit flips (uniform + header fields) and 1..16-byte overwrites; "
-                       "distinct = distinct (log, damage); every case recovers a non-empty log except cut 0")
+                       "page multiples, random) and, checksums on, after single-bit flips (uniform + header fields + ids before a reset mark), "
+                       "1..16-byte overwrites and separator ids replaced by other opcodes; plus synthetic logs with all seven record kinds and "
+                       "malformations run through _rollforward_exl alone (model/implementation only); distinct = distinct (log, damage); "
+                       "every case recovers a non-empty log except cut 0")
     ctx.assumptions += ["crash model: the log loses a tail (any byte length) or has bytes changed; the main file is as of the last log truncation",
                         "page size 4096; checkpoint thread idle (huge timeouts), savepoints only through iwkv_sync / db creation / explicit checkpoint"]
     ctx.translate()
@@ -695,7 +695,7 @@ def run(ctx):
     if ctx.tier == "quick":
         explore(ctx, h, drv, "main", 6, 60, 70, 60, grow=(20000, 40000), mfrac=0.5)
     else:
-        explore(ctx, h, drv, "main", 20, 160, 250, 200, mfrac=0.12, nsynth=600)
+        explore(ctx, h, drv, "main", 20, 120, 250, 200, mfrac=0.03, nsynth=600)
     if ctx.proof_broken or ctx.corr_broken:
         ctx.log("obligation or correspondence broken: widening the search for a failing input")
         for x in (ctx.proof_broken + ctx.corr_broken)[:3]:
